@@ -57,7 +57,7 @@ end fields
 structure WF (s : St) : Prop where
   hdr_buf : s.hdr = false → s.buf = [] ∧ s.sdone = false
   fin_ctx : s.ctx = none → s.finished = none
-  sdone_buf : s.sdone = true → (∃ i ∈ s.buf, i ≠ Item.msg) ∨ (∃ c, s.pc = .returned c)
+  sdone_buf : s.sdone = true → (∃ i ∈ s.buf, i.terminal = true) ∨ (∃ c, s.pc = .returned c)
   watch_s : s.streaming = true → s.created = true → s.watcher = true
   watch_u : s.watcher = true → s.streaming = true ∧ s.created = true
   created_pos : (s.pc = .parked .wquota ∨ s.pc = .parked .header ∨ s.pc = .parked .recv ∨ s.pc = .app) → s.created = true
@@ -103,6 +103,9 @@ theorem wf_takeHead {s s' : St} (h : WF s) (hp : s.pc = .parked .recv) (hw : tak
     · split at hw <;> simp at hw <;> subst hw <;> constructor <;> simp_all
   · simp at hw; subst hw; constructor <;> simp_all
   · split at hw <;> simp at hw <;> subst hw <;> constructor <;> simp_all
+  · rename_i rest hb
+    have := hh (by simp [hb])
+    simp at hw; subst hw; constructor <;> simp_all
 
 theorem wf_wake {b : Bool} {s s' : St} (h : WF s) (hw : wake b s = some s') : WF s' := by
   obtain ⟨h1, h2, h3, h4, h5, h6, h7, h8, h9, h10, h11, h12⟩ := h
@@ -183,6 +186,10 @@ theorem wf_step {b : Bool} {s : St} (h : WF s) (ev : Ev) : WF (step b s ev) := b
     · exact h
     · apply wf_resume; obtain ⟨h1, h2, h3, h4, h5, h6, h7, h8, h9, h10, h11, h12⟩ := h; constructor <;> simp_all
   | message =>
+    simp only [step]; split
+    · exact h
+    · apply wf_resume; obtain ⟨h1, h2, h3, h4, h5, h6, h7, h8, h9, h10, h11, h12⟩ := h; constructor <;> simp_all
+  | partialMsg =>
     simp only [step]; split
     · exact h
     · apply wf_resume; obtain ⟨h1, h2, h3, h4, h5, h6, h7, h8, h9, h10, h11, h12⟩ := h; constructor <;> simp_all
@@ -283,6 +290,7 @@ theorem takeHead_none {s : St} (h : takeHead s = none) : s.buf = [] := by
   · split at h <;> (try split at h) <;> simp at h
   · simp at h
   · split at h <;> simp at h
+  · simp at h
 
 theorem parked_recv {b b' : Bool} {s : St} (e : CtxErr) (h : WF s) (hp : s.pc = .parked .recv) (hc : s.ctx = none)
     (hw : wake b s = none) : (step b' s (.ctxFire e)).pc = .returned (codeOfCtx e) := by
@@ -391,6 +399,7 @@ theorem ctx_done_not_blocked {b : Bool} {s : St} (h : WF s) (e : CtxErr) (hc : s
       | msg => simp only; split <;> (try split) <;> exact ⟨_, rfl⟩
       | err c => exact ⟨_, rfl⟩
       | eof c => simp only; split <;> exact ⟨_, rfl⟩
+      | part => exact ⟨_, rfl⟩
 
 theorem step_appRecv {b : Bool} {s : St} (hp : s.pc = .app) (hh : s.hdr = true) :
     step b s .appRecv = resume b (s.buf.length + 7 + 1) { s with pc := .parked .recv } := by
@@ -423,12 +432,12 @@ theorem drain_returns (pref : Nat → Bool) (c : Nat) : ∀ (k n : Nat) (s : St)
     intro n s hp hs hh hsd hb
     have hb' : s.buf = .msg :: (List.replicate k Item.msg ++ [.err c]) := by simpa [List.replicate_succ] using hb
     have w : wake (pref n) { s with pc := .parked .recv } =
-        some { s with buf := List.replicate k Item.msg ++ [.err c], delivered := s.delivered + 1, pc := .app } := by
+        some { s with buf := List.replicate k Item.msg ++ [.err c], delivered := s.delivered + 1, midMsg := false, pc := .app } := by
       simp only [wake]
       rw [recvClose_sdone (by simpa using hsd)]
       simp [takeHead, hb', hs]
     rw [List.replicate_succ, run, step_appRecv hp hh, resume_some w, resume_none (wake_app _ _ rfl)]
-    have := ih (n + 1) { s with buf := List.replicate k Item.msg ++ [.err c], delivered := s.delivered + 1, pc := .app }
+    have := ih (n + 1) { s with buf := List.replicate k Item.msg ++ [.err c], delivered := s.delivered + 1, midMsg := false, pc := .app }
       rfl hs hh hsd rfl
     constructor
     · exact this.1
@@ -448,6 +457,7 @@ theorem released_takeHead {c : Nat} {s s' : St} (h : Released c s) (hw : takeHea
     · split at hw <;> simp at hw <;> subst hw <;> exact ⟨h1, h2, h3⟩
   · simp at hw; subst hw; exact ⟨h1, h2, h3⟩
   · split at hw <;> simp at hw <;> subst hw <;> exact ⟨h1, h2, h3⟩
+  · simp at hw; subst hw; exact ⟨h1, h2, h3⟩
 
 theorem released_wake {b : Bool} {c : Nat} {s s' : St} (h : Released c s) (hw : wake b s = some s') : Released c s' := by
   obtain ⟨h1, h2, h3⟩ := h
